@@ -20,7 +20,7 @@ func init() {
 			b, err := replication.EncodeExchangeBatch(v.(replication.ExchangeBatch))
 			return b, err == nil
 		},
-		dec: func(data []byte) (any, bool) {
+		dec: func(_ any, data []byte) (any, bool) {
 			b, err := replication.DecodeExchangeBatch(data)
 			return b, err == nil
 		},
@@ -48,7 +48,7 @@ func init() {
 			b, err := replication.EncodeExchangeBatchResult(v.(replication.ExchangeBatchResult))
 			return b, err == nil
 		},
-		dec: func(data []byte) (any, bool) {
+		dec: func(_ any, data []byte) (any, bool) {
 			b, err := replication.DecodeExchangeBatchResult(data)
 			return b, err == nil
 		},
